@@ -60,6 +60,22 @@ func isSameFileContent(state *core.BuildState, hashTimestamp bool, from, to stri
 	return bytes.Equal(h1, h2), err
 }
 
+// hasOutMode returns true unless the target is binary and some file at the given path doesn't have
+// its permissions yet, which happens if an earlier build was killed before it got to set them.
+func hasOutMode(target *core.BuildTarget, path string) bool {
+	if !target.IsBinary {
+		return true
+	}
+	ok := true
+	fs.Walk(path, func(name string, isDir bool) error {
+		if info, err := os.Lstat(name); err == nil && info.Mode().IsRegular() && info.Mode().Perm() != target.OutMode() {
+			ok = false
+		}
+		return nil
+	})
+	return ok
+}
+
 // Build builds a single filegroup file. Returns whether any files are changed or should be if there hadn't been an
 // error.
 func (builder *filegroupBuilder) Build(state *core.BuildState, target *core.BuildTarget, from, to string) (bool, error) {
@@ -76,7 +92,7 @@ func (builder *filegroupBuilder) Build(state *core.BuildState, target *core.Buil
 	}
 	if same, err := isSameFileContent(state, target.HashLastModified(), from, to); err != nil {
 		return false, err
-	} else if same {
+	} else if same && hasOutMode(target, to) {
 		// File exists already and is the same file. Nothing to do.
 		builder.built[to] = false
 		state.PathHasher.CopyHash(from, to)
